@@ -5,7 +5,7 @@ import ClaripyProofs.Props.C04
 Eager folding computes the denotation: if the folding model (`foldOp`, the model of
 `backends.concrete.call` = bv.py arithmetic on Python ints) returns a value for a constant node, that value
 is the SMT-LIB value `applyOp` assigns to the node.  Proved from the bridge lemmas, for every width.
-Operators whose bridge lemma is not proved yet (`rotl rotr reverse`, n-ary `concat`) are excluded by `Proven`.
+Operators whose bridge lemma is not proved yet (`reverse`, n-ary `concat`) are excluded by `Proven`.
 -/
 namespace Claripy.AST
 open Claripy.BV
@@ -20,7 +20,7 @@ def CVal.Canon : CVal → Prop
   | .bool _ => True
 
 def Proven : Op → Bool
-  | .rotl | .rotr | .reverse | .concat => false
+  | .reverse | .concat => false
   | _ => true
 
 theorem bin_sound (f : Nat → Nat → Nat → R) (g : (w : Nat) → BitVec w → BitVec w → BitVec w)
@@ -149,6 +149,10 @@ theorem smod_h : ∀ w x y r, 0 < w → x < 2 ^ w → y < 2 ^ w → smod w x y =
       simp [this]
     simp [smod, this] at h
   · rw [smod_spec w x y hw hx hy h0] at h; exact (ok_inj h).symm
+theorem rotl_h : ∀ w x y r, 0 < w → x < 2 ^ w → y < 2 ^ w → rotl w x y = .ok r → r = ((fun (w : Nat) (a b : BitVec w) => a.rotateLeft b.toNat) w (BitVec.ofNat w x) (BitVec.ofNat w y)).toNat := by
+  intro w x y r hw hx hy h; rw [rotl_spec w x y hw hx hy] at h; exact (ok_inj h).symm
+theorem rotr_h : ∀ w x y r, 0 < w → x < 2 ^ w → y < 2 ^ w → rotr w x y = .ok r → r = ((fun (w : Nat) (a b : BitVec w) => a.rotateRight b.toNat) w (BitVec.ofNat w x) (BitVec.ofNat w y)).toNat := by
+  intro w x y r hw hx hy h; rw [rotr_spec w x y hw hx hy] at h; exact (ok_inj h).symm
 theorem umod_h : ∀ w x y r, 0 < w → x < 2 ^ w → y < 2 ^ w → umod w x y = .ok r → r = ((fun (w : Nat) (a b : BitVec w) => a % b) w (BitVec.ofNat w x) (BitVec.ofNat w y)).toNat := by
   intro w x y r _ hx hy h
   by_cases h0 : y = 0
@@ -224,7 +228,7 @@ theorem foldOp_sound (op : Op) (hp : Proven op = true) (vs : List CVal) (hwt : W
     simp only [List.map, applyOp]
     have := reduceL_bin_sound sub _ sub_h _ hvs c h
     simpa [foldVals] using this
-  case udiv | umod | sdiv | smod | shl | ashr | lshr =>
+  case udiv | umod | sdiv | smod | shl | ashr | lshr | rotl | rotr =>
     obtain ⟨w, x, y, hw, rfl⟩ := hwt
     simp only [foldOp] at h
     simp only [List.map, applyOp]
@@ -235,6 +239,8 @@ theorem foldOp_sound (op : Op) (hp : Proven op = true) (vs : List CVal) (hwt : W
       | exact (bin_sound umod _ umod_h _ _ c ha hb h).1
       | exact (bin_sound sdiv _ sdiv_h _ _ c ha hb h).1
       | exact (bin_sound smod _ smod_h _ _ c ha hb h).1
+      | exact (bin_sound rotl _ rotl_h _ _ c ha hb h).1
+      | exact (bin_sound rotr _ rotr_h _ _ c ha hb h).1
       | exact (bin_sound shl _ shl_h _ _ c ha hb h).1
       | exact (bin_sound ashr _ ashr_h _ _ c ha hb h).1
       | exact (bin_sound lshr _ lshr_h _ _ c ha hb h).1
